@@ -55,7 +55,7 @@ static unsigned char big2[1 << 16];
 
 static void do_split(void)
 {
-	/* split DIR NSPLIT LIMIT BS T1 T2 ... : parity_create then parity_chsize to each target */
+	/* split DIR NSPLIT LIMIT BS T1 T2 ... : parity_create then parity_chsize to each target; `r` = reopen, `L<n>` = reopen with limit n */
 	struct snapraid_parity parity;
 	struct snapraid_parity_handle handle;
 	int nsplit = atoi(tok[2]);
@@ -74,6 +74,15 @@ static void do_split(void)
 	for (i = 5; i < ntok; ++i) {
 		int mod = 0;
 		long long target = atoll(tok[i]);
+		if (tok[i][0] == 'L') {
+			/* the file systems of the splits now allow another size: reopen with the new limit */
+			limit = atoll(tok[i] + 1);
+			parity_close(&handle);
+			memset(&handle, 0, sizeof(handle));
+			ret = parity_create(&handle, &parity, 0, 0, bs, limit);
+			printf("relimit=%d ", ret);
+			continue;
+		}
 		if (tok[i][0] == 'r') {
 			/* reopen: close and create again from the recorded sizes */
 			parity_close(&handle);
